@@ -176,7 +176,21 @@ func verifC05History(steps, k int, ids []int) {
 
 func VerifC05_History2_K1() { verifC05History(2, 1, []int{0}) }
 func VerifC05_History2_K2() { verifC05History(2, 2, []int{0, 9}) }
-func VerifC05_History3_K1() { verifC05History(3, 1, []int{0}) }
+// Three events with a bucket of size 1: events {query, response, AddNode, failed ping}, IDs arbitrary in
+// bucket 0 or own or zero, the endpoint in its two address forms.
+func VerifC05_History3_K1() {
+	verifLimiterAlwaysGrants()
+	v := verifStartServer(verifSrvOpt{noSecurity: true})
+	v.s.table.k = 1
+	verifFreezeClock(true)
+	for i := 0; i < 3; i++ {
+		ev := verifChoice(0, 3)
+		id := verifPeerID(v.id, []int{0}, true)
+		verifTableEvent(v, ev, id, verifTableAddr(verifChoice(0, 1)))
+		verifTableInvariant(v.s)
+	}
+	verifReach("end")
+}
 
 // One step from an arbitrary reachable table: a bucket of size 2 holding 0..2 contacts of arbitrary
 // liveness class, then any event with any ID (same bucket, another bucket, the node's own, zero;
